@@ -8,6 +8,7 @@ import filecmp
 import hashlib
 import itertools as it
 import logging
+import math
 import numbers
 import os
 import re
@@ -129,7 +130,8 @@ def average_coverage(
     if len(platforms) == 0:
         return float("nan")
 
-    total = sum([coverage(setmap, [p]) for p in platforms])
+    # fsum() does not depend on the order in which `platforms` is visited.
+    total = math.fsum([coverage(setmap, [p]) for p in platforms])
     return total / len(platforms)
 
 
@@ -143,11 +145,13 @@ def distance(setmap, p1, p2):
             total += count
     if total == 0:
         return float("nan")
+    # Count the lines before dividing: a sum of fractions would depend, in
+    # its last bits, on the order in which the platform sets are visited.
     d = 0
     for pset, count in setmap.items():
         if (p1 in pset) ^ (p2 in pset):
-            d += count / float(total)
-    return d
+            d += count
+    return d / float(total)
 
 
 def divergence(setmap):
@@ -157,15 +161,16 @@ def divergence(setmap):
     """
     platforms = extract_platforms(setmap)
 
-    d = 0
-    npairs = 0
-    for p1, p2 in it.combinations(platforms, 2):
-        d += distance(setmap, p1, p2)
-        npairs += 1
+    # The platforms come from a set, in no particular order; fsum() gives
+    # the same (correctly rounded) total whatever that order is.
+    distances = [
+        distance(setmap, p1, p2) for p1, p2 in it.combinations(platforms, 2)
+    ]
+    npairs = len(distances)
 
     if npairs == 0:
         return float("nan")
-    return d / float(npairs)
+    return math.fsum(distances) / float(npairs)
 
 
 def summary(setmap: defaultdict[str, int], stream: TextIO = sys.stdout):
